@@ -336,6 +336,8 @@ class SimMerge(_SimOp):
         self.active = 0
         self.queue = []
         self.queued_ever = 0
+        self.sync_dequeue_after_outer_done = 0  # dequeued inner completed inside its own subscribe, outer done, queue empty
+        self.sync_dequeue = 0  # dequeued inner completed inside its own subscribe (any state)
 
     def on_outer(self, k, p):
         if self.done:
@@ -355,7 +357,7 @@ class SimMerge(_SimOp):
             if self.active == 0:
                 self.terminate("C", None)
 
-    def _go(self, a):
+    def _go(self, a, dequeued=False):
         def cb(k, p):
             if self.done or not a["h"].open:
                 return
@@ -365,14 +367,20 @@ class SimMerge(_SimOp):
                 self.terminate("E", p, a["j"])
             else:
                 a["h"].close(self.sim.now)
+                if dequeued and a.get("starting"):
+                    self.sync_dequeue += 1
+                    if self.outer_done and not self.queue:
+                        self.sync_dequeue_after_outer_done += 1
                 if self.queue:
-                    self._go(self.queue.pop(0))
+                    self._go(self.queue.pop(0), True)
                 else:
                     self.active -= 1
                     if self.outer_done and self.active == 0:
                         self.terminate("C", None)
 
+        a["starting"] = True
         self.start_inner(a, cb)
+        a["starting"] = False
 
 
 class SimSwitch(_SimOp):
@@ -631,3 +639,42 @@ def draw_outer(draw, n_inners, max_len=5, max_dt=3, kinds=("cold", "cold", "sync
         m = draw(st.integers(1, 3))
         tl = _fix([[0 if i < m else t, k, p] for i, (t, k, p) in enumerate(tl)])
     return {"kind": kind, "tl": tl}
+
+
+@st.composite
+def saturated_case(draw, max_c=3):
+    """Shape for merge(max_concurrent) / concat_map: the limit is saturated by slow inners, further inners are queued,
+    the outer completes early, and (most) queued inners complete synchronously inside their own subscribe."""
+    maxc = draw(st.sampled_from([1, 2, 1, 2, 3][: 5 if max_c >= 3 else 4]))
+    n_slow = draw(st.sampled_from([maxc, maxc, max(1, maxc - 1)]))
+    n_q = draw(st.sampled_from([1, 2, 1, 3]))
+    inners = []
+    for i in range(n_slow):
+        tl = draw_timeline(draw, 2, 3, ["i0"], ["C", "C", "C", "C", "E", None], [f"e{i}"])
+        shift_ = draw(st.integers(1, 4))
+        tl = [[t + shift_, k, p] for t, k, p in tl]
+        inners.append({"kind": draw(st.sampled_from(["cold", "cold", "sync"])), "tl": _renumber(tl, 100 * i)})
+    for j in range(n_q):
+        i = n_slow + j
+        style = draw(st.sampled_from(["sync0", "sync0", "sync0", "cold0", "any"]))
+        if style == "any":
+            tl = draw_timeline(draw, 2, 2, ["i0"], ["C", "C", "E", None], [f"e{i}"])
+            kind = draw(st.sampled_from(["cold", "sync"]))
+        else:
+            n = draw(st.sampled_from([0, 1, 2]))
+            tl = [[0, "N", "i0"] for _ in range(n)] + [[0, "C", None]]
+            kind = "sync" if style == "sync0" else "cold"
+        inners.append({"kind": kind, "tl": _renumber(tl, 100 * i)})
+    order = list(range(n_slow)) + list(range(n_slow, n_slow + n_q))
+    if draw(st.integers(0, 3)) == 0:
+        order.append(draw(st.integers(0, len(inners) - 1)))
+    gap = draw(st.sampled_from([0, 0, 1]))
+    t, tl = 0, []
+    for i in order:
+        tl.append([t, "N", f"n:{i}"])
+        t += gap
+    term = draw(st.sampled_from(["C", "C", "C", "C", None, "E"]))
+    if term is not None:
+        tl.append([t + draw(st.sampled_from([0, 0, 1])), term, "eo" if term == "E" else None])
+    outer = {"kind": draw(st.sampled_from(["cold", "sync", "hot"])), "tl": tl}
+    return {"maxc": maxc, "inners": inners, "outer": outer}
